@@ -105,7 +105,7 @@ def _cfg_oracle(args, obs):
 
 def c11_cfg(t: P2, p: int, rkind: int, d: D4, rs: int, rf: int, rsym: int) -> bool:
     """
-    pre: pinned(p=p, h0=t[0], l0=t[1], s0=t[2], rkind=rkind, rsym=rsym, rs=rs, rf=rf, d0=d[0])
+    pre: pinned(p=p, h0=t[0], l0=t[1], s0=t[2], rkind=rkind, rsym=rsym, rs=rs, rf=rf, d0=d[0], d1=d[1])
     pre: ((0 <= p) & (p <= 2)) & ((0 <= rkind) & (rkind < 4)) & ((0 <= rsym) & (rsym < 3)) & ((0 <= rf) & (rf < 4))
     pre: cfg_canonical(t, p, 2, 2, 2)
     pre: (rkind != 0) or (enc.in_range(d, 3) and 0 <= rs <= 2)
@@ -153,7 +153,7 @@ def _pda_oracle(args, obs):
 
 def c11_pda(t: T10, m: int, finals: int, rkind: int, d: D4, rs: int, rf: int, rsym: int) -> bool:
     """
-    pre: pinned(m=m, finals=finals, i0=t[1], c0=t[4], rkind=rkind, rsym=rsym, rs=rs, rf=rf, d0=d[0])
+    pre: pinned(m=m, finals=finals, i0=t[1], c0=t[4], f1=t[5], rkind=rkind, rsym=rsym, rs=rs, rf=rf, d0=d[0], d1=d[1])
     pre: ((1 <= m) & (m <= 2)) & ((0 <= finals) & (finals < 4)) & ((0 <= rkind) & (rkind < 4)) & ((0 <= rsym) & (rsym < 3)) & ((0 <= rf) & (rf < 4))
     pre: pda_canonical(t, m, 2, 2)
     pre: (t[0] == 0) & (t[2] == 0)
@@ -208,21 +208,29 @@ def c11_types(which: int) -> bool:
 
 def _sh_cfg(tier):
     if tier == "quick":
-        return product_pins(p=[2], h0=[0], l0=[1, 2], s0=[2], rkind=[0], rsym=[0, 1], rs=[1], rf=[1, 2, 3]) + \
-            product_pins(p=[2], h0=[0], l0=[0], rkind=[0], rsym=[1, 2], rs=[1], rf=[1, 3]) + \
-            product_pins(p=[2], h0=[0], l0=[2], s0=[2], rkind=[1, 2], rsym=[0], rs=[1, 3], rf=[2]) + \
+        # S -> a + any second production (41 grammars) x DFA whose state-0 row is pinned (9 DFAs per shard)
+        return product_pins(p=[2], h0=[0], l0=[1], s0=[2], rkind=[0], rsym=[0, 1], rs=[1], rf=[1, 3], d0=[1, 2],
+                            d1=[0, 2]) + \
+            product_pins(p=[2], h0=[0], l0=[0], rkind=[0], rsym=[1, 2], rs=[1], rf=[1, 3], d0=[0, 1], d1=[0]) + \
+            product_pins(p=[2], h0=[0], l0=[1], s0=[2], rkind=[1, 2], rsym=[0], rs=[1, 3], rf=[2], d0=[1, 3, 8]) + \
             product_pins(p=[1], rkind=[3], rsym=[0], rs=[1, 3], rf=[0])
-    return product_pins(p=[2], h0=[0, 1], l0=[0, 1, 2], rkind=[0], rsym=[0, 1, 2], rs=[0, 1], rf=[0, 1, 2, 3]) + \
-        product_pins(p=[2], h0=[0], l0=[1, 2], rkind=[1, 2], rsym=[0, 1], rs=[0, 1, 3], rf=[1, 2]) + \
+    return product_pins(p=[2], h0=[0, 1], l0=[0, 1, 2], rkind=[0], rsym=[0, 1, 2], rs=[0, 1], rf=[0, 1, 2, 3],
+                        d0=[0, 1, 2], d1=[0, 1, 2]) + \
+        product_pins(p=[2], h0=[0], l0=[1, 2], rkind=[1, 2], rsym=[0, 1], rs=[0, 1, 3], rf=[1, 2],
+                     d0=list(range(13))) + \
         product_pins(p=[1, 2], h0=[0], rkind=[3], rsym=[0], rs=[1, 2, 3], rf=[0], d0=list(range(8)))
 
 
 def _sh_pda(tier):
     if tier == "quick":
-        return product_pins(m=[2], finals=[2, 3], i0=[1], c0=[2, 3], rkind=[0], rsym=[0], rs=[1], rf=[1, 2]) + \
-            product_pins(m=[2], finals=[2], i0=[1], c0=[3], rkind=[1], rsym=[0], rs=[1, 3], rf=[2])
-    return product_pins(m=[1, 2], finals=[1, 2, 3], i0=[0, 1, 2], rkind=[0], rsym=[0, 1], rs=[0, 1], rf=[1, 2, 3]) + \
-        product_pins(m=[2], finals=[2, 3], i0=[0, 1], rkind=[1, 2], rsym=[0], rs=[1, 3], rf=[1, 2]) + \
+        return product_pins(m=[2], finals=[2, 3], i0=[1], c0=[2, 3], f1=[0, 1], rkind=[0], rsym=[0], rs=[1],
+                            rf=[1, 2], d0=[1, 2], d1=[0, 2]) + \
+            product_pins(m=[2], finals=[2], i0=[1], c0=[3], f1=[0, 1], rkind=[1], rsym=[0], rs=[1, 3], rf=[2],
+                         d0=[1, 3, 8])
+    return product_pins(m=[1, 2], finals=[1, 2, 3], i0=[0, 1, 2], rkind=[0], rsym=[0, 1], rs=[0, 1], rf=[1, 2, 3],
+                        d0=[0, 1, 2], d1=[0, 1, 2]) + \
+        product_pins(m=[2], finals=[2, 3], i0=[0, 1], rkind=[1, 2], rsym=[0], rs=[1, 3], rf=[1, 2],
+                     d0=list(range(13))) + \
         product_pins(m=[2], finals=[2], i0=[1], rkind=[3], rsym=[0], rs=[1, 2, 3], rf=[0], d0=list(range(8)))
 
 
@@ -240,9 +248,9 @@ ASSUME = ["languages compared on all words of length <= 3 (O-CFG / O-PDA fixpoin
 
 CONDS = [
     Cond("C11", c11_cfg, _sh_cfg,
-         {"quick": "grammars S->a.. or S->eps + any second production (over {S,A},{a,b}) x partial DFA with 2 states over "
-                   "{a,b} or {a,c} (start 0, any non-empty final mask); x eps-NFA / NFA with <=2 edges; single "
-                   "production x regex of 1 or 3 tokens from {a,b,|,*,(,),$,c}",
+         {"quick": "grammars S->a or S->eps + any second production (over {S,A},{a,b}) x partial DFA with 2 states over "
+                   "{a,b} / {a,c} / {b,a} (start 0, final masks {0} or {0,1}, 4 of the 9 state-0 rows); x eps-NFA / NFA "
+                   "whose first edge is one of 3; single production x regex of 1 or 3 tokens from {a,b,|,*,(,),$,c}",
           "thorough": "all 2-production grammars x DFA(2 states, 2 symbols) incl. no start state, 3 alphabets; "
                       "eps-NFA/NFA operands; regex operands of 1-3 tokens; also the & operator"},
          FUNCS, RULE, assumptions=ASSUME),
